@@ -259,6 +259,15 @@ class CollT(Ty):
         return smap.SColl(name, self.etype, [], rn)
 
 
+class AnyListT(Ty):
+    """a list about which nothing is known (any length, any elements) -- see smap.SList"""
+
+    def fresh(self, I, name):
+        from . import smap
+
+        return smap.SList(name, I.ctx.fresh_const(name + ".prefix", OpaqueSort))
+
+
 class ExtT(Ty):
     def __init__(self, ext: ExtClass):
         self.ext = ext
@@ -339,6 +348,10 @@ class T:
     @staticmethod
     def coll(etype, **kw):
         return CollT(etype, **kw)
+
+    @staticmethod
+    def any_list():
+        return AnyListT()
 
     @staticmethod
     def typed_int(cls):
@@ -520,6 +533,17 @@ class Contract:
         return self
 
     effect_asserts = ()
+
+    def on_write(self, field, cid, lam):
+        """lam(self, old_value, new_value, ...) must hold at every assignment `self.<field> = ...` made by this
+        function (checked at the moment of the write, i.e. against the state the write actually replaces --
+        after an await that is whatever the rest of the class left there)."""
+        if "write_asserts" not in self.__dict__:
+            self.write_asserts = []
+        self.write_asserts.append((field, cid, lam))
+        return self
+
+    write_asserts = ()
 
     def await_assert(self, cid, lam):
         self.await_asserts.append((cid, lam))
